@@ -24,6 +24,7 @@ var (
 	VAddTimer func(d int64, name string, fire func()) (cancel func() bool)
 	VSpawn    func(name string, f func())
 	VPoint    func()
+	VBlock    func(why string, pred func() bool)
 )
 
 func vnow() int64 {
@@ -275,6 +276,10 @@ func (sched *StdScheduler) Start(ctx context.Context) {
 	}
 	sched.ctx, sched.cancel = context.WithCancel(ctx)
 	sched.started = true
+	if VSpawn != nil && VBlock != nil {
+		// stands for the real scheduler's execution-loop goroutine: it lives until Stop
+		VSpawn("quartz-loop", func() { VBlock("quartz execution loop (until Scheduler.Stop)", func() bool { return !sched.started }) })
+	}
 	sched.rearm()
 }
 
